@@ -146,9 +146,9 @@ func c17Counts(tier string) (docs, hist int64) {
 
 func init() {
 	Register(&Prop{
-		ID:   "C17",
-		Race: true,
-		Rule: "(1) documents: journals from G (clean pool; lexeme table known by construction), damaged and hostile text; semanticTokens/full decoded to absolute positions: geometry (document order, no overlap, inside the line in UTF-16, type/modifier indices inside the advertised legend) on every document, lexeme exactness (each token coincides with exactly one lexeme of a compatible kind: code with parentheses, quoted commodity with quotes, operator on the operator, tag name with its colon, tag value) on G journals; range requests for all line ranges of small documents (sampled for large) must equal the full result restricted to those lines. (2) histories of 5-40 steps over 1-3 documents sharing the server: edits, close/re-open, full and delta requests carrying the current id, a stale id, another document's id or garbage; a model client keeps every array it received per id and applies delta edits; after every request its array must equal a fresh full result for the current text. Non-trivial = document with >=3 tokens / history with >=1 delta answered by edits; distinct by text or history hash.",
+		ID:    "C17",
+		Race:  true,
+		Rule:  "(1) documents: journals from G (clean pool; lexeme table known by construction), damaged and hostile text; semanticTokens/full decoded to absolute positions: geometry (document order, no overlap, inside the line in UTF-16, type/modifier indices inside the advertised legend) on every document, lexeme exactness (each token coincides with exactly one lexeme of a compatible kind: code with parentheses, quoted commodity with quotes, operator on the operator, tag name with its colon, tag value) on G journals; range requests for all line ranges of small documents (sampled for large) must equal the full result restricted to those lines. (2) histories of 5-40 steps over 1-3 documents sharing the server: edits, close/re-open, full and delta requests carrying the current id, a stale id, another document's id or garbage; a model client keeps every array it received per id and applies delta edits; after every request its array must equal a fresh full result for the current text. Non-trivial = document with >=3 tokens / history with >=1 delta answered by edits; distinct by text or history hash.",
 		Notes: []string{"indented lines of directives (format subdirectives) are lexed as one text token and are exempt from lexeme exactness", "runs under the race detector (token cache is process-global)"},
 		Cases: func(tier string) int64 {
 			a, b := c17Counts(tier)
